@@ -166,6 +166,91 @@ pub open spec fn keyset_rm_post<K: Ord, V: Val<A>, A: Ord + Hash>(old_: Map<K, V
     &&& (!vle(clock@, old_.cl()) ==> new_.defs().contains_key(clock) && new_.defs()[clock]@ == old_.dm(clock).union(ks))
 }
 
+/// pending removes after reset_remove(c): every remaining context is a reduced old one and keeps that one's key set ...
+#[verifier::opaque]
+pub open spec fn rekeyed_from<K: Ord, A: Ord>(d0: SMap<VClock<A>, BTreeSet<K>>, d1: SMap<VClock<A>, BTreeSet<K>>, c: SMap<A, u64>) -> bool {
+    forall|k2: VClock<A>| #[trigger] d1.contains_key(k2) ==> exists|k: VClock<A>| #[trigger] d0.contains_key(k) && k2@ == vsub(k@, c) && d1[k2] == d0[k]
+}
+/// ... and every old context that is not emptied is still present in its reduced form (two contexts that become equal are
+/// folded into one entry by `collect`: only one key set survives -- see DESIGN, C18)
+#[verifier::opaque]
+pub open spec fn rekeyed_onto<K: Ord, A: Ord>(d0: SMap<VClock<A>, BTreeSet<K>>, d1: SMap<VClock<A>, BTreeSet<K>>, c: SMap<A, u64>) -> bool {
+    forall|k: VClock<A>| #[trigger] d0.contains_key(k) && vsub(k@, c) != SMap::<A, u64>::empty() ==> exists|k2: VClock<A>| #[trigger] d1.contains_key(k2) && k2@ == vsub(k@, c)
+}
+
+/// exact effect of Map::reset_remove (C18)
+pub open spec fn rr_post_map<K: Ord, V: Val<A>, A: Ord + Hash>(old_: Map<K, V, A>, clock: VClock<A>, new_: Map<K, V, A>) -> bool {
+    let c = clock@;
+    &&& new_.cl() == vsub(old_.cl(), c)
+    &&& forall|k: K| #[trigger] new_.ec(k) == vsub(old_.ec(k), c)
+    &&& forall|k: K| #[trigger] new_.has(k) == (old_.has(k) && new_.ec(k) != SMap::<A, u64>::empty())
+    // the nested value of every surviving key is reset by the same clock (this is what gives Map its reset-remove behaviour)
+    &&& forall|k: K| #[trigger] new_.has(k) ==> V::rr_post(&old_.val(k), &clock, &new_.val(k))
+    &&& rekeyed_from(old_.defs(), new_.defs(), c)
+    &&& rekeyed_onto(old_.defs(), new_.defs(), c)
+}
+
+spec fn rrm_keep<K, V: Val<A>, A: Ord>(k: K, e: Entry<V, A>, o: Option<(K, Entry<V, A>)>, clock: VClock<A>) -> bool {
+    if vsub(e.clock@, clock@) == SMap::<A, u64>::empty() { o is None }
+    else { o matches Some(q) && q.0 == k && q.1.clock@ == vsub(e.clock@, clock@) && V::rr_post(&e.val, &clock, &q.1.val) && q.1.val.cm_inv() }
+}
+spec fn rrm_keep_d<K: Ord, A: Ord>(k: SMap<A, u64>, v: BTreeSet<K>, o: Option<(VClock<A>, BTreeSet<K>)>, c: SMap<A, u64>) -> bool {
+    if vsub(k, c) == SMap::<A, u64>::empty() { o is None } else { o matches Some(q) && q.0@ == vsub(k, c) && q.1 == v }
+}
+
+impl<K: Ord, V: Val<A>, A: Ord + Hash> ResetRemove<A> for Map<K, V, A> {
+    open spec fn rr_inv(&self) -> bool { mbase_ok::<K, V, A>() && self.wf() }
+    open spec fn rr_post(old_: &Self, clock: &VClock<A>, new_: &Self) -> bool { rr_post_map(*old_, *clock, *new_) }
+
+//@extract fn src/map.rs "ResetRemove for Map" reset_remove
+    fn reset_remove(&mut self, clock: &VClock<A>)
+    //@ ensures rr_post_map(*old(self), *clock, *final(self)),
+    {
+        //@ let ghost e0 = self.entries@;
+        //@ proof { old(self).lemma_wf(); assert(ents_ok(e0)); }
+        self.entries = /*@ shim_btreemap_filter_map_collect( @*/ mem::take(&mut self.entries)
+            /*@<*/ .into_iter()
+            .filter_map( /*@>*/ /*@ , @*/ /*@<*/ | /*@>*/ /*@<pat1*/ (key, mut entry) /*@>*/ /*@<*/ | /*@>*/ /*@ |p: (K, Entry<V, A>)| -> (o: Option<(K, Entry<V, A>)>)
+                requires actor_ok::<A>(), val_ok::<V, A>(), nz(p.1.clock@), p.1.val.cm_inv(),
+                ensures rrm_keep(p.0, p.1, o, *clock)
+            { let $pat1 = p; @*/ {
+                entry.clock.reset_remove(clock);
+                entry.val.reset_remove(clock);
+                if entry.clock.is_empty() {
+                    None // remove this entry since its been forgotten
+                } else {
+                    Some((key, entry))
+                }
+            } /*@ } @*/ )
+            /*@<*/ .collect() /*@>*/ ;
+        //@ let ghost e1 = self.entries@;
+        //@ proof { lemma_rrm_entries(e0, e1, *clock); }
+
+        //@ let ghost d0 = self.deferred@;
+        self.deferred = /*@ shim_hashmap_filter_map_collect_rekey( @*/ mem::take(&mut self.deferred)
+            /*@<*/ .into_iter()
+            .filter_map( /*@>*/ /*@ , @*/ /*@<*/ | /*@>*/ /*@<pat2*/ (mut rm_clock, key) /*@>*/ /*@<*/ | /*@>*/ /*@ |p: (VClock<A>, BTreeSet<K>)| -> (o: Option<(VClock<A>, BTreeSet<K>)>)
+                requires actor_ok::<A>(), nz(p.0@),
+                ensures rrm_keep_d(p.0@, p.1, o, clock@)
+            { let $pat2 = p; @*/ {
+                rm_clock.reset_remove(clock);
+                if rm_clock.is_empty() {
+                    None // this deferred remove has been forgotten
+                } else {
+                    Some((rm_clock, key))
+                }
+            } /*@ } @*/ )
+            /*@<*/ .collect() /*@>*/ ;
+        //@ let ghost d1g = self.deferred@;
+        //@ proof { lemma_rrm_deferred_from(d0, d1g, clock@); lemma_rrm_deferred_onto(d0, d1g, clock@); }
+
+        //@ proof { assert(self.clock.rr_inv()); c10_vsub_nz(self.clock@, clock@); }
+        self.clock.reset_remove(clock);
+        //@ proof { lemma_rrm_done(*old(self), *self, *clock, e0, e1, d0, d1g); }
+    }
+//@end
+}
+
 //@extract enum src/map.rs CmRDTValidation
 pub enum CmRDTValidation<V: CmRDT, A> {
     SourceOrder(crate::DotRange<A>),
@@ -632,6 +717,80 @@ proof fn lemma_up_fin<K: Ord, V: Val<A>, A: Ord + Hash>(pre: Map<K, V, A>, mid: 
     }
     assert(o is Up && cnt(pre.cl(), o->dot.actor) < o->dot.counter);
     assert(apply_post_map(pre, o, fin));
+}
+
+proof fn lemma_rrm_entries<K, V: Val<A>, A: Ord>(e0: SMap<K, Entry<V, A>>, e1: SMap<K, Entry<V, A>>, clock: VClock<A>)
+    requires
+        ents_ok(e0),
+        forall|k: K| #[trigger] e1.contains_key(k) ==> e0.contains_key(k) && rrm_keep(k, e0[k], Some((k, e1[k])), clock),
+        forall|k: K| #[trigger] e0.contains_key(k) && !e1.contains_key(k) ==> rrm_keep(k, e0[k], None, clock),
+    ensures
+        ents_ok(e1),
+        forall|k: K| #![trigger e1.contains_key(k)] e1.contains_key(k) <==> (e0.contains_key(k) && vsub(e0[k].clock@, clock@) != SMap::<A, u64>::empty()),
+        forall|k: K| #[trigger] e1.contains_key(k) ==> e1[k].clock@ == vsub(e0[k].clock@, clock@) && V::rr_post(&e0[k].val, &clock, &e1[k].val),
+{
+    assert forall|k: K| e1.contains_key(k) implies nz(#[trigger] e1[k].clock@) && e1[k].clock@ != SMap::<A, u64>::empty() && e1[k].val.cm_inv() by {
+        assert(e0.contains_key(k)); c10_vsub_nz(e0[k].clock@, clock@);
+    }
+    assert forall|k: K| #![trigger e1.contains_key(k)] e1.contains_key(k) <==> (e0.contains_key(k) && vsub(e0[k].clock@, clock@) != SMap::<A, u64>::empty()) by {
+        if e0.contains_key(k) && !e1.contains_key(k) { assert(rrm_keep(k, e0[k], None::<(K, Entry<V, A>)>, clock)); }
+    }
+}
+
+proof fn lemma_rrm_deferred_from<K: Ord, A: Ord + Hash>(d0: SMap<VClock<A>, BTreeSet<K>>, d1: SMap<VClock<A>, BTreeSet<K>>, c: SMap<A, u64>)
+    requires
+        forall|k: VClock<A>| #[trigger] d0.contains_key(k) ==> nz(k@),
+        forall|k2: VClock<A>| #[trigger] d1.contains_key(k2) ==> exists|k: VClock<A>| d0.contains_key(k) && #[trigger] rrm_keep_d(k@, d0[k], Some((k2, d1[k2])), c),
+    ensures
+        forall|k2: VClock<A>| #[trigger] d1.contains_key(k2) ==> nz(k2@),
+        rekeyed_from(d0, d1, c),
+{
+    reveal(rekeyed_from);
+    assert forall|k2: VClock<A>| #[trigger] d1.contains_key(k2) implies nz(k2@) && exists|k: VClock<A>| #[trigger] d0.contains_key(k) && k2@ == vsub(k@, c) && d1[k2] == d0[k] by {
+        let k = choose|k: VClock<A>| d0.contains_key(k) && #[trigger] rrm_keep_d(k@, d0[k], Some((k2, d1[k2])), c);
+        assert(d0.contains_key(k));
+        c10_vsub_nz(k@, c);
+    }
+}
+proof fn lemma_rrm_deferred_onto<K: Ord, A: Ord + Hash>(d0: SMap<VClock<A>, BTreeSet<K>>, d1: SMap<VClock<A>, BTreeSet<K>>, c: SMap<A, u64>)
+    requires
+        forall|k: VClock<A>| #[trigger] d0.contains_key(k) ==> exists|o: Option<(VClock<A>, BTreeSet<K>)>| #[trigger] rrm_keep_d(k@, d0[k], o, c) && (o matches Some(q) ==> d1.contains_key(q.0)),
+    ensures rekeyed_onto(d0, d1, c),
+{
+    reveal(rekeyed_onto);
+    assert forall|k: VClock<A>| #[trigger] d0.contains_key(k) && vsub(k@, c) != SMap::<A, u64>::empty() implies exists|k2: VClock<A>| #[trigger] d1.contains_key(k2) && k2@ == vsub(k@, c) by {
+        let o = choose|o: Option<(VClock<A>, BTreeSet<K>)>| #[trigger] rrm_keep_d(k@, d0[k], o, c) && (o matches Some(q) ==> d1.contains_key(q.0));
+        let q = o->Some_0;
+        assert(d1.contains_key(q.0) && q.0@ == vsub(k@, c));
+    }
+}
+
+proof fn lemma_rrm_done<K: Ord, V: Val<A>, A: Ord + Hash>(old_: Map<K, V, A>, new_: Map<K, V, A>, clock: VClock<A>, e0: SMap<K, Entry<V, A>>, e1: SMap<K, Entry<V, A>>, d0: SMap<VClock<A>, BTreeSet<K>>, d1: SMap<VClock<A>, BTreeSet<K>>)
+    requires
+        old_.wf(), nz(new_.clock@), new_.clock@ == vsub(old_.clock@, clock@),
+        old_.entries@ == e0, new_.entries@ == e1, old_.deferred@ == d0, new_.deferred@ == d1,
+        ents_ok(e1),
+        forall|k: K| #![trigger e1.contains_key(k)] e1.contains_key(k) <==> (e0.contains_key(k) && vsub(e0[k].clock@, clock@) != SMap::<A, u64>::empty()),
+        forall|k: K| #[trigger] e1.contains_key(k) ==> e1[k].clock@ == vsub(e0[k].clock@, clock@) && V::rr_post(&e0[k].val, &clock, &e1[k].val),
+        forall|k2: VClock<A>| #[trigger] d1.contains_key(k2) ==> nz(k2@),
+        rekeyed_from(d0, d1, clock@), rekeyed_onto(d0, d1, clock@),
+    ensures new_.wf(), rr_post_map(old_, clock, new_),
+{
+    assert forall|k: K| #[trigger] new_.ec(k) == vsub(old_.ec(k), clock@) by {
+        if !old_.entries@.contains_key(k) { assert(vsub(SMap::<A, u64>::empty(), clock@) =~= SMap::<A, u64>::empty()); }
+        else if !new_.entries@.contains_key(k) { }
+    }
+    assert forall|k: K| #[trigger] new_.has(k) == (old_.has(k) && new_.ec(k) != SMap::<A, u64>::empty()) by {
+        if new_.entries@.contains_key(k) { assert(new_.entries@[k].clock@ != SMap::<A, u64>::empty()); }
+    }
+    assert forall|k: K| #[trigger] new_.has(k) implies V::rr_post(&old_.val(k), &clock, &new_.val(k)) by {}
+    assert(new_.wf()) by {
+        assert forall|k2: VClock<A>| #[trigger] new_.deferred@.contains_key(k2) implies nz(k2@) by { assert(new_.defs().contains_key(k2)); }
+        assert forall|k: K| new_.entries@.contains_key(k) implies nz(#[trigger] new_.entries@[k].clock@) && new_.entries@[k].clock@ != SMap::<A, u64>::empty() && new_.entries@[k].val.cm_inv() by {}
+    }
+    let c = clock@;
+    assert(new_.cl() == vsub(old_.cl(), c));
+    assert(rr_post_map(old_, clock, new_));
 }
 
 pub proof fn lemma_map_len0<K, T>(m: SMap<K, T>)
